@@ -44,6 +44,9 @@ type seqExec struct {
 	gcWritten                      map[int]bool // C07: keys written by the traffic connection during the current pass
 	exited                         bool         // the harness ended the process (shutdown during GC)
 	closingInGC                    bool         // C07: a clean shutdown was started while a pass was running
+	gcCancelAt, gcDataWrites       int          // C03: cancel placed before the n-th relocation write of the current pass
+	gcBucket                       int
+	gcCancelled                    bool
 	gcHold                         func() bool  // C07: the main client stays parked (a shutdown is in progress)
 	nontrivial                     *bool
 	noFinalRestart                 bool
@@ -346,6 +349,15 @@ func (x *seqExec) onFS(g *Gen, ev *simrt.FSEvent) {
 	}
 	if x.inGC && ev.Tag == "gc" {
 		x.gcEvents = append(x.gcEvents, gcEvent{ev.Kind, ev.Path, ev.Off, len(ev.Data)})
+		if x.gcCancelAt > 0 && ev.Kind == simrt.FSWrite && strings.HasSuffix(ev.Path, ".data") {
+			x.gcDataWrites++
+			if x.gcDataWrites == x.gcCancelAt {
+				// a cancel request placed in the middle of a source file
+				gcCancel(g, x.plan.Cfg.GCWeb, x.gcBucket)
+				x.gcCancelled = true
+				x.out.probe("gc-cancel-placed-at-relocation-write")
+			}
+		}
 	}
 	if x.fsHook != nil {
 		x.fsHook(g, ev)
@@ -948,6 +960,23 @@ func (x *seqExec) applyRestart(op *Op) {
 		switch cl {
 		case "tree":
 			del = want["tree"]
+			if !del && want["trunc-tree"] {
+				// the tree dump is cut short (a fault beyond the SIGKILL model: a dump is renamed into
+				// place only after it was written completely; HTree.load has an error path for it and
+				// the bucket must then rebuild the tree like for a missing dump)
+				if sz := files[name]; sz > 1 {
+					n := int64(r.Intn(int(sz)))
+					if r.Bool(1, 3) {
+						n = sz - 1 - int64(r.Intn(8))%sz
+					}
+					if n < 0 {
+						n = 0
+					}
+					os.Truncate(filepath.Join(x.sim.Dir, name), n)
+					x.out.fault("tree-dump-truncated")
+				}
+				continue
+			}
 		case "hint":
 			del = want["hint"]
 		case "merged":
@@ -988,6 +1017,7 @@ func (x *seqExec) doGC(op Op) {
 	_ = sizes
 	x.inGC = true
 	x.gcEvents = nil
+	x.gcCancelAt, x.gcDataWrites, x.gcBucket, x.gcCancelled = op.CancelAt, 0, b, false
 	if x.gcHook != nil {
 		x.gcHook("before", op, 0, 0)
 	}
@@ -1075,10 +1105,10 @@ func (x *seqExec) doGC(op Op) {
 		}
 		return
 	}
-	if x.plan.Prop == "C18" || x.plan.Prop == "C03" {
+	if (x.plan.Prop == "C18" || x.plan.Prop == "C03") && !x.gcCancelled {
 		x.checkReclaimed(op, b, begin, end, before, bdir)
 	}
-	if x.viol == nil && x.plan.Prop == "C18" && op.ID%2 == 0 {
+	if x.viol == nil && x.plan.Prop == "C18" && op.ID%2 == 0 && !x.gcCancelled {
 		// running the same pass again releases nothing
 		n2 := g.W.NumTasks()
 		g.W.Advance(2 * time.Second)
